@@ -89,6 +89,59 @@ async fn connect_tcp_for_target<T: ToSocketAddrs>(
     .await
 }
 
+/// Send a datagram to the first address of `target` that takes it, through the socket of
+/// that address family (`sockets[0]`: IPv4, `sockets[1]`: IPv6), which is bound on first use.
+async fn send_udp_to<T: ToSocketAddrs>(
+    sockets: &mut [Option<UdpSocket>; 2],
+    target: T,
+    data: &[u8],
+    outgoing_from_v4: Ipv4Addr,
+    outgoing_from_v6: Ipv6Addr,
+) -> io::Result<SocketAddr> {
+    let mut last_err = None;
+    for sock_addr in lookup_host(target).await? {
+        let slot = &mut sockets[usize::from(sock_addr.is_ipv6())];
+        let socket = match slot {
+            Some(socket) => socket,
+            None => {
+                let bound = if sock_addr.is_ipv4() {
+                    UdpSocket::bind((outgoing_from_v4, 0)).await
+                } else {
+                    UdpSocket::bind((outgoing_from_v6, 0)).await
+                };
+                match bound {
+                    Ok(socket) => slot.insert(socket),
+                    Err(e) => {
+                        last_err = Some(e);
+                        continue;
+                    }
+                }
+            }
+        };
+        match socket.send_to(data, sock_addr).await {
+            Ok(_) => return Ok(sock_addr),
+            Err(e) => last_err = Some(e),
+        }
+    }
+    Err(last_err.unwrap_or_else(|| {
+        io::Error::new(
+            io::ErrorKind::InvalidInput,
+            "could not resolve to any address",
+        )
+    }))
+}
+
+/// Receive on a socket that may not be there (yet)
+async fn recv_udp_from(
+    socket: Option<&UdpSocket>,
+    buf: &mut [u8],
+) -> io::Result<(usize, SocketAddr)> {
+    match socket {
+        Some(socket) => socket.recv_from(buf).await,
+        None => std::future::pending().await,
+    }
+}
+
 /// Sit on a random port, send a UDP datagram to the given target,
 /// and wait for a response in the following `UDP_PRUNE_TIMEOUT` seconds.
 #[tracing::instrument(skip_all, level = "debug", fields(flow_id = %format_args!("{:08x}", first_datagram_frame.flow_id)))]
@@ -114,53 +167,85 @@ pub(super) async fn udp_forward_on(
         .local_addr()
         .expect("Failed to get local address of UDP socket (this is a bug)");
     debug!("bound to {local_addr}");
-    socket.send_to(&data, target).await?;
-    trace!("sent UDP packet to {target}");
+    // One socket per address family: the same flow carries the exchanges of a client with
+    // all of its destinations, which need not be of one family. The second socket is bound
+    // when the first destination of the other family shows up.
+    let mut sockets: [Option<UdpSocket>; 2] = if target.is_ipv4() {
+        [Some(socket), None]
+    } else {
+        [None, Some(socket)]
+    };
+    // A datagram that cannot be sent (destination does not resolve, port 0, no route, ...)
+    // is lost, like on a plain UDP socket. It must not end the flow: the replies that its
+    // other destinations still owe would be lost with the sockets.
+    match send_udp_to(&mut sockets, target, &data, outgoing_from_v4, outgoing_from_v6).await {
+        Ok(target) => trace!("sent UDP packet to {target}"),
+        Err(e) => debug!("cannot send UDP packet to {target}: {e}"),
+    }
     loop {
         // Reset this timeout each time we see traffic
         let this_round_timeout = tokio::time::sleep(config::UDP_PRUNE_TIMEOUT);
-        let mut buf = vec![0; config::MAX_UDP_PACKET_SIZE];
-        tokio::select! {
-            // Check if the socket has received a datagram
-            Ok((len, addr)) = socket.recv_from(&mut buf) => {
-                buf.truncate(len);
+        let mut buf_v4 = vec![0; config::MAX_UDP_PACKET_SIZE];
+        let mut buf_v6 = vec![0; config::MAX_UDP_PACKET_SIZE];
+        let reply = tokio::select! {
+            // Check if one of the sockets has received a datagram
+            Ok((len, addr)) = recv_udp_from(sockets[0].as_ref(), &mut buf_v4) => {
                 trace!("got UDP response from {addr}");
-                let frame = Datagram {
-                    target_host: rhost.clone(), // cheap
-                    target_port: rport,
-                    flow_id,
-                    data: buf.into(),
-                };
-                if let Err(error) = datagram_tx.try_send(frame) {
-                    match error {
-                        mpsc::error::TrySendError::Closed(_) => {
-                            // The mux loop has exited
-                            trace!("UDP forwarder exiting due to closed mux");
-                            break;
-                        }
-                        mpsc::error::TrySendError::Full(_) => {
-                            // The channel is full, so just discard the datagram
-                            debug!("UDP forwarder channel is full");
-                        }
-                    }
-                }
+                buf_v4.truncate(len);
+                buf_v4
+            }
+            Ok((len, addr)) = recv_udp_from(sockets[1].as_ref(), &mut buf_v6) => {
+                trace!("got UDP response from {addr}");
+                buf_v6.truncate(len);
+                buf_v6
             }
             // Check if the channel has received a datagram
             Some(datagram_frame) = datagram_rx.recv() => {
                 // If this returns `None`, the mux loop has exited
                 // I don't want to handle this case here because
                 // the timeout branch will handle it for us anyway.
-                let target = (
-                    std::str::from_utf8(&datagram_frame.target_host)?,
-                    datagram_frame.target_port,
-                );
+                let Ok(target_host) = std::str::from_utf8(&datagram_frame.target_host) else {
+                    debug!("dropping datagram for a host that is not UTF-8");
+                    continue;
+                };
+                let target = (target_host, datagram_frame.target_port);
                 trace!("got new datagram frame: {datagram_frame:?} for {target:?}");
-                socket.send_to(&datagram_frame.data, target).await?;
+                if let Err(e) = send_udp_to(
+                    &mut sockets,
+                    target,
+                    &datagram_frame.data,
+                    outgoing_from_v4,
+                    outgoing_from_v6,
+                )
+                .await
+                {
+                    debug!("cannot send UDP packet to {target:?}: {e}");
+                }
+                continue;
             }
             // Check if the timeout has expired
             () = this_round_timeout => {
                 trace!("UDP prune timeout expired");
                 break;
+            }
+        };
+        let frame = Datagram {
+            target_host: rhost.clone(), // cheap
+            target_port: rport,
+            flow_id,
+            data: reply.into(),
+        };
+        if let Err(error) = datagram_tx.try_send(frame) {
+            match error {
+                mpsc::error::TrySendError::Closed(_) => {
+                    // The mux loop has exited
+                    trace!("UDP forwarder exiting due to closed mux");
+                    break;
+                }
+                mpsc::error::TrySendError::Full(_) => {
+                    // The channel is full, so just discard the datagram
+                    debug!("UDP forwarder channel is full");
+                }
             }
         }
     }
